@@ -270,9 +270,9 @@ def run_job(job):
 def make_jobs(tier, seed):
     rng = random.Random(200000 + seed)
     jobs = [{'part': 1, 'mode': 'exhaustive', 'seed': rng.randrange(1 << 30)}]
-    for i in range(8 if tier == 'quick' else 1000):
+    for i in range(8 if tier == 'quick' else 3000):
         jobs.append({'part': 1, 'mode': 'random', 'seed': rng.randrange(1 << 30), 'n': 12})
-    for i in range(24 if tier == 'quick' else 4000):
+    for i in range(24 if tier == 'quick' else 12000):
         jobs.append({'part': 2, 'seed': rng.randrange(1 << 30), 'n': 10, 'length': rng.choice([20, 40, 60])})
     jobs.append({'part': 3})
     return jobs
